@@ -1153,6 +1153,10 @@ impl Scenario for FilterWrite {
         let to_file = rng.chance(1, 2);
         let im = pick_input_mode(&mut rng);
         let mut base = specgen::spec(im.clone(), &[], input);
+        if rng.chance(1, 3) {
+            // the destination file exists already (left by an earlier run with another filter)
+            base.stale_outputs = Some(rng.next_u64());
+        }
         if rng.chance(3, 4) {
             swarm_schedule(&mut base, &mut rng, 300 + n as u64 * 3);
         }
@@ -1269,6 +1273,9 @@ impl Scenario for StatsTruth {
         let im = pick_input_mode(&mut rng);
         let mut spec = specgen::spec(im, &parts, input);
         spec.stats_ext = ext.to_string();
+        if rng.chance(1, 4) {
+            spec.stale_outputs = Some(rng.next_u64());
+        }
         if rng.chance(3, 4) {
             swarm_schedule(&mut spec, &mut rng, 300 + n as u64 * 6);
         }
@@ -2795,6 +2802,10 @@ impl Scenario for StatsRt {
         pa.extend(s(&["-S", "@STATS@", "-D", ext]));
         let mut a = specgen::spec(im.clone(), &pa, st.bytes());
         a.stats_ext = ext.to_string();
+        if rng.chance(1, 4) {
+            // the statistics file of an earlier run is still there: it must be replaced
+            a.stale_outputs = Some(rng.next_u64());
+        }
         let mut pb = parts.clone();
         pb.extend(s(&["-i", "@INSTATS@"]));
         let mut b = specgen::spec(im, &pb, st.bytes());
